@@ -1,5 +1,8 @@
 """C16: get_nearest_prev_point recurses forever when the first point is excluded.
 
+FIXED in /repo by 9adba84 (known_findings.json "fixed"); kept as a regression
+script: prints "not reproduced" on a fixed tree.
+
 IntegerSequence.get_nearest_prev_point walks from p_start (without checking
 that p_start itself is excluded); if the candidate it ends with is excluded it
 calls itself with that candidate, which (being excluded, hence "not on
